@@ -158,7 +158,242 @@ def install(cfg):
             return Foreign("match")
         return None
     cfg.pattern_match = re_match
+    install_asym(cfg)
+    install_numbers(cfg)
 
 
 def _pattern_method(interp, recv, name, args, kwargs):
     pass
+
+
+# =============================================================================================
+# asymmetric keys (cryptography): abstract key material, idealised signature relations
+
+from cryptography.hazmat.primitives import hashes as _hashes
+from cryptography.hazmat.primitives.asymmetric import padding as _padding, ec as _ec, rsa as _rsa
+from cryptography.hazmat.primitives.asymmetric import ed25519 as _ed25519, ed448 as _ed448, x25519 as _x25519, x448 as _x448
+from cryptography.hazmat.primitives.asymmetric import utils as _asym_utils
+from cryptography.exceptions import InvalidSignature as _InvalidSignature
+
+CURVES = {"secp256r1": 256, "secp384r1": 384, "secp521r1": 521, "secp256k1": 256}
+OKP_KINDS = {"ed25519": (_ed25519.Ed25519PrivateKey, _ed25519.Ed25519PublicKey),
+             "ed448": (_ed448.Ed448PrivateKey, _ed448.Ed448PublicKey),
+             "x25519": (_x25519.X25519PrivateKey, _x25519.X25519PublicKey),
+             "x448": (_x448.X448PrivateKey, _x448.X448PublicKey)}
+Nonce = z3.Function("Nonce", I_, I_)
+
+
+def pad_descriptor(p):
+    """Canonical text of a live cryptography padding object (its parameters are what C07/C08 are about)."""
+    n = type(p).__name__
+    if n == "PKCS1v15":
+        return "PKCS1v15"
+    if n == "PSS":
+        mgf = getattr(p, "_mgf", None)
+        mh = getattr(getattr(mgf, "_algorithm", None), "name", "?")
+        sl = getattr(p, "_salt_length", None)
+        if not isinstance(sl, int):
+            sl = type(sl).__name__ if not hasattr(sl, "name") else str(sl)
+        return "PSS(mgf1=%s,salt=%s)" % (mh, sl)
+    if n == "OAEP":
+        mgf = getattr(p, "_mgf", None)
+        mh = getattr(getattr(mgf, "_algorithm", None), "name", "?")
+        h = getattr(getattr(p, "_algorithm", None), "name", "?")
+        return "OAEP(mgf1=%s,hash=%s,label=%r)" % (mh, h, getattr(p, "_label", None))
+    raise Unsupported("padding %s" % n)
+
+
+def new_nonce(ctx):
+    return Nonce(z3.IntVal(next_cell(ctx)))
+
+
+def mk_key(kind, ident, **extra):
+    return Foreign(kind, ident=ident, **extra)
+
+
+def install_asym(cfg):
+    fm = cfg.foreign_methods
+    fa = cfg.foreign_attrs
+
+    for cls, nm in ((_hashes.SHA1, "sha1"), (_hashes.SHA256, "sha256"), (_hashes.SHA384, "sha384"), (_hashes.SHA512, "sha512")):
+        cfg.class_hooks[cls] = (lambda nm_: (lambda interp, *a, **k: Foreign("hashalg", name=nm_)))(nm)
+    cfg.class_hooks[_ec.ECDSA] = lambda interp, h, *a, **k: Foreign("ecdsa", hname=hash_name_of(interp, h))
+    cfg.class_hooks[_ec.ECDH] = lambda interp, *a, **k: Foreign("ecdh")
+    fa[("hashalg", "name")] = lambda interp, o: o.f["name"]
+    fa[("hashalg", "digest_size")] = lambda interp, o: DIGEST_SIZE[o.f["name"]]
+
+    def is_kind(*kinds):
+        return lambda interp, f: f.kind in kinds
+    isf = cfg.isinstance_foreign
+    isf[_rsa.RSAPrivateKey] = is_kind("rsa_priv")
+    isf[_rsa.RSAPublicKey] = is_kind("rsa_pub")
+    isf[_ec.EllipticCurvePrivateKey] = is_kind("ec_priv")
+    isf[_ec.EllipticCurvePublicKey] = is_kind("ec_pub")
+    for nm, (prv, pub) in OKP_KINDS.items():
+        isf[prv] = is_kind(nm + "_priv")
+        isf[pub] = is_kind(nm + "_pub")
+
+    # ---- RSA -------------------------------------------------------------------------------
+    def scheme_rsa(interp, padding, halg):
+        return "RSA/" + pad_descriptor(padding) + "/" + hash_name_of(interp, halg)
+
+    def rsa_sign(interp, k, args, kwargs):
+        msg, padding, halg = args
+        sch = z3.StringVal(scheme_rsa(interp, padding, halg))
+        mt = _bytes(interp, msg, "sign")
+        sig = Sign(sch, k.f["ident"], mt, new_nonce(interp.ctx))
+        interp.ctx.axiom(SigValid(sch, Pub(k.f["ident"]), mt, sig), "verify(sign(m)) holds under the matching public key")
+        interp.ctx.axiom(z3.Length(sig) > 0, "signatures are non-empty")
+        interp.ctx.events.append(("sign", scheme_rsa(interp, padding, halg), k.f["ident"], mt))
+        return interp.mk("vbytes", sig)
+    fm[("rsa_priv", "sign")] = rsa_sign
+
+    def rsa_verify(interp, k, args, kwargs):
+        sig, msg, padding, halg = args
+        sch = z3.StringVal(scheme_rsa(interp, padding, halg))
+        ok = SigValid(sch, k.f["ident"], _bytes(interp, msg, "verify"), _bytes(interp, sig, "verify"))
+        interp.ctx.events.append(("verify", scheme_rsa(interp, padding, halg), k.f["ident"]))
+        if interp.ctx.branch(ok):
+            return None
+        interp.raise_(_InvalidSignature)
+    fm[("rsa_pub", "verify")] = rsa_verify
+    fm[("rsa_priv", "public_key")] = lambda interp, k, a, kw: mk_key("rsa_pub", Pub(k.f["ident"]), bits=k.f.get("bits"))
+    fa[("rsa_priv", "key_size")] = lambda interp, k: interp.from_term(mk_int(k.f["bits"]))
+    fa[("rsa_pub", "key_size")] = lambda interp, k: interp.from_term(mk_int(k.f["bits"]))
+
+    # ---- EC --------------------------------------------------------------------------------
+    def curve_of(interp, k):
+        return Foreign("curve", name=k.f["curve"], key_size=CURVES[k.f["curve"]])
+    fa[("ec_priv", "curve")] = curve_of
+    fa[("ec_pub", "curve")] = curve_of
+    fm[("ec_priv", "public_key")] = lambda interp, k, a, kw: mk_key("ec_pub", Pub(k.f["ident"]), curve=k.f["curve"])
+
+    def ec_sign(interp, k, args, kwargs):
+        msg, alg = args
+        hn = alg.f["hname"]
+        mt = _bytes(interp, msg, "sign")
+        der = Sign(z3.StringVal("ECDSA-DER/" + hn), k.f["ident"], mt, new_nonce(interp.ctx))
+        bits = CURVES[k.f["curve"]]
+        r, s_ = DerR(der), DerS(der)
+        ctx = interp.ctx
+        ctx.axiom(z3.And(r > 0, s_ > 0, r < S.Pow2(z3.IntVal(bits)), s_ < S.Pow2(z3.IntVal(bits))), "ECDSA r, s are in [1, n-1], n < 2^bits")
+        S.pow2_facts(ctx, z3.IntVal(bits))
+        ctx.axiom(ECDSAValid(z3.StringVal(hn), Pub(k.f["ident"]), mt, r, s_), "ECDSA verify(sign(m)) holds under the matching public key")
+        ctx.events.append(("sign", "ECDSA/" + hn + "/" + k.f["curve"], k.f["ident"], mt))
+        return interp.mk("vbytes", der)
+    fm[("ec_priv", "sign")] = ec_sign
+
+    def ec_verify(interp, k, args, kwargs):
+        der, msg, alg = args
+        hn = alg.f["hname"]
+        dt = _bytes(interp, der, "verify")
+        ok = ECDSAValid(z3.StringVal(hn), k.f["ident"], _bytes(interp, msg, "verify"), DerR(dt), DerS(dt))
+        interp.ctx.events.append(("verify", "ECDSA/" + hn + "/" + k.f["curve"], k.f["ident"]))
+        if interp.ctx.branch(ok):
+            return None
+        interp.raise_(_InvalidSignature)
+    fm[("ec_pub", "verify")] = ec_verify
+
+    @cfg.stub(_asym_utils.decode_dss_signature)
+    def decode_dss(interp, der):
+        dt = _bytes(interp, der, "decode_dss_signature")
+        return (interp.mk("vint", DerR(dt)), interp.mk("vint", DerS(dt)))
+
+    @cfg.stub(_asym_utils.encode_dss_signature)
+    def encode_dss(interp, r, s_):
+        rt, st = interp.int_term(r), interp.int_term(s_)
+        if interp.ctx.branch(z3.Or(rt < 0, st < 0)):
+            interp.raise_(ValueError, "Both r and s must be integers >= 0")   # cryptography: asn1 integers; negative rejected
+        d = DerEnc(rt, st)
+        interp.ctx.axiom(z3.And(DerR(d) == rt, DerS(d) == st), "decode_dss_signature(encode_dss_signature(r, s)) = (r, s)")
+        return interp.mk("vbytes", d)
+
+    # ---- OKP -------------------------------------------------------------------------------
+    for nm in ("ed25519", "ed448"):
+        def ed_sign(interp, k, args, kwargs, nm=nm):
+            mt = _bytes(interp, args[0], "sign")
+            sch = z3.StringVal("EdDSA/" + nm)
+            sig = Sign(sch, k.f["ident"], mt, z3.IntVal(0))
+            interp.ctx.axiom(SigValid(sch, Pub(k.f["ident"]), mt, sig), "verify(sign(m)) holds under the matching public key")
+            interp.ctx.events.append(("sign", "EdDSA/" + nm, k.f["ident"], mt))
+            return interp.mk("vbytes", sig)
+
+        def ed_verify(interp, k, args, kwargs, nm=nm):
+            sig, msg = args
+            ok = SigValid(z3.StringVal("EdDSA/" + nm), k.f["ident"], _bytes(interp, msg, "verify"), _bytes(interp, sig, "verify"))
+            interp.ctx.events.append(("verify", "EdDSA/" + nm, k.f["ident"]))
+            if interp.ctx.branch(ok):
+                return None
+            interp.raise_(_InvalidSignature)
+        fm[(nm + "_priv", "sign")] = ed_sign
+        fm[(nm + "_pub", "verify")] = ed_verify
+    for nm in OKP_KINDS:
+        fm[(nm + "_priv", "public_key")] = (lambda nm_: (lambda interp, k, a, kw: mk_key(nm_ + "_pub", Pub(k.f["ident"]))))(nm)
+
+
+# ---- key numbers / raw encodings (abstract, tied to the key identity) --------------------------
+RSA_n = z3.Function("RSA_n", I_, I_)
+RSA_e = z3.Function("RSA_e", I_, I_)
+RSA_priv = {nm: z3.Function("RSA_" + nm, I_, I_) for nm in ("d", "p", "q", "dmp1", "dmq1", "iqmp")}
+EC_x = z3.Function("EC_x", I_, I_)
+EC_y = z3.Function("EC_y", I_, I_)
+EC_d = z3.Function("EC_d", I_, I_)
+OKP_x = z3.Function("OKP_x", I_, S_)
+OKP_d = z3.Function("OKP_d", I_, S_)
+OKP_LEN = {"ed25519": 32, "ed448": 57, "x25519": 32, "x448": 56}
+
+
+def install_numbers(cfg):
+    fm = cfg.foreign_methods
+    fa = cfg.foreign_attrs
+
+    def rsa_pubnum(interp, pk):
+        ctx = interp.ctx
+        n, e = RSA_n(pk), RSA_e(pk)
+        ctx.axiom(z3.And(n > 1, e > 1), "RSA modulus and exponent are > 1")
+        return Foreign("rsa_pubnum", n=SVal(mk_int(n)), e=SVal(mk_int(e)), pk=pk)
+
+    fm[("rsa_pub", "public_numbers")] = lambda interp, k, a, kw: rsa_pubnum(interp, k.f["ident"])
+
+    def rsa_privnum(interp, k, a, kw):
+        sk = k.f["ident"]
+        vals = {}
+        for nm, f in RSA_priv.items():
+            t = f(sk)
+            interp.ctx.axiom(t > 0, "RSA private numbers are positive")
+            vals[nm] = SVal(mk_int(t))
+        return Foreign("rsa_privnum", public_numbers=rsa_pubnum(interp, Pub(sk)), **vals)
+    fm[("rsa_priv", "private_numbers")] = rsa_privnum
+
+    def ec_pubnum(interp, pk, curve):
+        bits = CURVES[curve]
+        x, y = EC_x(pk), EC_y(pk)
+        S.pow2_facts(interp.ctx, z3.IntVal(8 * ((bits + 7) // 8)))
+        interp.ctx.axiom(z3.And(x >= 0, y >= 0, x < S.Pow2(z3.IntVal(8 * ((bits + 7) // 8))), y < S.Pow2(z3.IntVal(8 * ((bits + 7) // 8)))),
+                         "EC coordinates are field elements (0 <= x, y < 2^(8*ceil(bits/8)))")
+        return Foreign("ec_pubnum", x=SVal(mk_int(x)), y=SVal(mk_int(y)), curve=Foreign("curve", name=curve, key_size=bits), pk=pk)
+    fm[("ec_pub", "public_numbers")] = lambda interp, k, a, kw: ec_pubnum(interp, k.f["ident"], k.f["curve"])
+
+    def ec_privnum(interp, k, a, kw):
+        sk = k.f["ident"]
+        bits = CURVES[k.f["curve"]]
+        d = EC_d(sk)
+        S.pow2_facts(interp.ctx, z3.IntVal(8 * ((bits + 7) // 8)))
+        interp.ctx.axiom(z3.And(d > 0, d < S.Pow2(z3.IntVal(8 * ((bits + 7) // 8)))), "EC private value is in [1, n-1]")
+        return Foreign("ec_privnum", private_value=SVal(mk_int(d)), public_numbers=ec_pubnum(interp, Pub(sk), k.f["curve"]))
+    fm[("ec_priv", "private_numbers")] = ec_privnum
+
+    for nm, ln in OKP_LEN.items():
+        def pub_bytes(interp, k, a, kw, ln=ln):
+            t = OKP_x(k.f["ident"])
+            interp.ctx.axiom(z3.Length(t) == ln, "OKP public key octets have the curve's fixed length")
+            interp.ctx.events.append(("public_bytes", a[0] if a else kw.get("encoding"), a[1] if len(a) > 1 else kw.get("format")))
+            return SVal(mk_bytes(t))
+
+        def priv_bytes(interp, k, a, kw, ln=ln):
+            t = OKP_d(k.f["ident"])
+            interp.ctx.axiom(z3.Length(t) == ln, "OKP private key octets have the curve's fixed length")
+            interp.ctx.events.append(("private_bytes", a[0] if a else kw.get("encoding"), a[1] if len(a) > 1 else kw.get("format")))
+            return SVal(mk_bytes(t))
+        fm[(nm + "_pub", "public_bytes")] = pub_bytes
+        fm[(nm + "_priv", "private_bytes")] = priv_bytes
